@@ -58,12 +58,17 @@ deriving DecidableEq, Repr
 inductive PlanIn | ok | missing | malformed
 deriving DecidableEq, Repr
 
-/-- what is at an output path before the run: nothing, a file with old content, a directory (a write must fail) -/
-inductive Pre | absent | file | dir
+/-- what is at an output path before the run: nothing, a file with old content, a directory (opening the path for writing
+fails), or something that can be opened for writing but cannot be written (`writeFails`: no space left on the device — every
+write of at least one byte fails; the harness puts a link to `/dev/full` there). The last two differ in *when* the fault
+shows: at open time or at write time. -/
+inductive Pre | absent | file | dir | writeFails
 deriving DecidableEq, Repr
 
-/-- `<layers>/store.toml` before the run; it is both an input (previous store) and an output -/
-inductive StorePre | absent | valid | malformed | dir
+/-- `<layers>/store.toml` before the run; it is both an input (previous store) and an output. `writeFails`: a valid store is
+read at the start of the phase, and by the time the result is written the path can be opened but not written (the device
+filled up in between; the test buildpack's build code puts the link to `/dev/full` there) -/
+inductive StorePre | absent | valid | malformed | dir | writeFails
 deriving DecidableEq, Repr
 
 inductive Fmt | cdx | spdx | syft
